@@ -117,6 +117,7 @@ fn trackers(cli: &Cli, rep: &mut Report) {
             low_quality: false,
             avoid_coincident: false,
             low_conf: false,
+            vary_nobj: false,
         };
         let h = HistOpts { len: if cli.small { 6 } else { 30 + rng.usize(40) }, lifecycle_ops: false, clear_wasted: false, auto_waste_ops: false, batches: false, empty_calls: true };
         let ops = gen_history(&mut rng, &w, &h);
